@@ -134,7 +134,7 @@ def check_medium(case, v):
 def slow_cases():
     for g in games.slow_choice_games():
         for prune in (True, False):
-            yield dict(kind="game", game=g, prune=prune)
+            yield dict(kind="game", game=g, prune=prune, allow_slow=True)
 
 
 def phases(tier):
@@ -208,7 +208,7 @@ def check_case(case):
         return v
 
     game = case["game"]
-    facts = GameFacts(game)
+    facts = GameFacts(game, allow_slow=bool(case.get("allow_slow")))
     if case["kind"] == "example":
         v.cls("example")
         v.key = dict(file=case["file"], name=case["name"], prune=prune)
